@@ -1649,14 +1649,26 @@ impl NotificationProtocol {
             event = self.shutdown_rx.recv() => match event {
                 None => (),
                 Some(peer) => {
-                    if let Some(context) = self.peers.get_mut(&peer) {
-                        tracing::trace!(
+                    // the notification may be stale: the stream may have already been closed by
+                    // the user or by a closed connection while the connection handler was shutting
+                    // down and the peer may have moved on. Only an open stream can be closed by it.
+                    match self.peers.get_mut(&peer) {
+                        Some(context) if std::matches!(context.state, PeerState::Open { .. }) => {
+                            tracing::trace!(
+                                target: LOG_TARGET,
+                                ?peer,
+                                protocol = %self.protocol,
+                                "notification stream to peer closed",
+                            );
+                            context.state = PeerState::Closed { pending_open: None };
+                        }
+                        state => tracing::debug!(
                             target: LOG_TARGET,
                             ?peer,
                             protocol = %self.protocol,
-                            "notification stream to peer closed",
-                        );
-                        context.state = PeerState::Closed { pending_open: None };
+                            ?state,
+                            "ignoring stale shutdown notification from connection handler",
+                        ),
                     }
                 }
             },
